@@ -235,6 +235,10 @@ impl GraphState {
         v.sort();
         v
     }
+    /// does a present job other than `d` currently produce one of `names`?
+    pub fn part_taken(&self, defs: &[Def], d: usize, names: &[String]) -> bool {
+        self.present.iter().any(|o| *o != d && *o < defs.len() && self.cur_parts(defs, *o).iter().any(|p| names.contains(p)))
+    }
     pub fn job_id(&self, defs: &[Def], d: usize) -> String {
         self.cur_parts(defs, d).join(ID_SEP)
     }
@@ -276,7 +280,9 @@ impl GraphState {
     pub fn apply(&mut self, defs: &[Def], e: &Edit) {
         match e {
             Edit::AddJob { def } => {
-                if *def < defs.len() {
+                // an output file has one producer: void if another present job currently produces one of
+                // this job's parts (definitions may share part names - a job merged into another, see gen.rs)
+                if *def < defs.len() && !self.part_taken(defs, *def, &self.cur_parts(defs, *def)) {
                     self.present.insert(*def);
                     self.parts.entry(*def).or_insert_with(|| vec![0]);
                     self.ext.entry(*def).or_insert(0);
@@ -319,7 +325,10 @@ impl GraphState {
                     p.sort();
                     p.dedup();
                     if !p.is_empty() {
-                        self.parts.insert(*def, p);
+                        let names: Vec<String> = p.iter().map(|i| defs[*def].universe[*i as usize].clone()).collect();
+                        if !(self.present.contains(def) && self.part_taken(defs, *def, &names)) {
+                            self.parts.insert(*def, p);
+                        }
                     }
                 }
             }
